@@ -5,6 +5,7 @@ import SdJwt.Lemmas.MarkInv
 import SdJwt.Lemmas.EndToEnd
 import SdJwt.Lemmas.Example
 import SdJwt.Lemmas.IssuedPaths
+import SdJwt.Lemmas.Defined
 /-!
 # C01 — issuance round trip returns exactly the original claims and their paths
 
@@ -274,3 +275,24 @@ theorem C01_reported_paths (rt : Rt) (mk : Nat → Option String → J → Strin
     have := hperm.map (·.1)
     simpa [List.map_map, Function.comp_def] using this
   exact h2.trans h1
+
+/-- **The marking hypothesis of `C01_end_to_end`, in the property's own terms.** For plain claims
+(no digests in them) and a non-empty list of addresses each of which reaches an existing member
+or element (`Addressable`; index tokens canonical), listed descendants before ancestors without
+repetition (`NestedFirst`), and a digest function that never repeats a value
+across draws: marking is defined and yields at least one disclosure — the hypotheses `h` and
+`hne` of `C01_end_to_end` / `C01_reported_paths` hold. -/
+theorem C01_valid_marking_defined (mk : Nat → Option String → J → String)
+    (hmk : ∀ i j k v k' v', mk i k v = mk j k' v' → i = j)
+    (addr : List (List String × String)) (ms : MMems) (hplain : (MJ.obj ms none).digests = [])
+    (haddr : ∀ a ∈ addr, Addressable (.obj ms none) a)
+    (hnf : NestedFirst addr) (hne : addr ≠ []) :
+    ∃ Tn ds, markAll mk 0 addr (.obj ms none) = some (Tn, ds) ∧ ds ≠ [] := by
+  obtain ⟨Tn, ds, h⟩ := markAll_defined mk hmk addr 0 (.obj ms none) haddr hnf
+    (fun g hg => by rw [hplain] at hg; cases hg)
+  refine ⟨Tn, ds, h, ?_⟩
+  intro e
+  have := markAll_length mk addr 0 _ Tn ds h
+  rw [e] at this
+  exact hne (List.length_eq_zero_iff.mp this.symm)
+
